@@ -297,6 +297,25 @@ class Check:
             log("  -> " + summary[:600])
         return True
 
+    def witnesses(self):
+        """known findings of this property that are identified by a committed witness input"""
+        out = []
+        for k in self.known:
+            if k.get("selector", {}).get("witness") and k.get("witness"):
+                p = os.path.join(VERIF, k["witness"])
+                if os.path.exists(p):
+                    out.append((k, json.load(open(p))))
+        return out
+
+    def witness_result(self, finding, reproduced, detail=""):
+        """A witness that still fails is the listed finding; one that stopped failing is reported so
+        that the entry can be retired (it never turns into a violation)."""
+        self.notes.setdefault("witnesses", {})[finding["id"]] = "reproduced" if reproduced else "NOT reproduced: " + detail
+        if reproduced:
+            self.known_hits[finding["id"]] = self.known_hits.get(finding["id"], 0) + 1
+        else:
+            log("note: witness of known finding %s no longer fails (%s) - the entry can be retired" % (finding["id"], detail))
+
     def finish(self, exhaustive=None, rule=None, extra=None):
         for k in self.known:
             n = self.known_hits.get(k["id"], 0)
